@@ -68,6 +68,9 @@ V_HARNESS(h_msg)
 #if defined(STRICTV) && MSGT == 5
   a->msg_buf.body.service_req.strict = STRICTV;
 #endif
+#if MSGT == 8
+  V_ASSUME(a->msg_buf.body.chn_token_req.chn_profile.min_duration > -W_DMAX && a->msg_buf.body.chn_token_req.chn_profile.min_duration < W_DMAX);
+#endif
 #if MSGT == 0
   a->msg_buf.body.connect_req.buffer_count = W_CLBUF;           /* bound: the allocation loop runs once per buffer (up to 255 + clients) */
 #endif
@@ -88,7 +91,7 @@ V_HARNESS(h_msg)
 
   w_dump("before message");
 #ifndef VERIF_CBMC
-  if (getenv("C19_TRACE")) { printf("   message from client%d: type=%u len=%u", ACT, type, len); for (i = 0; i < 24; i++) printf(" %02x", ((uint8_t *) &a->msg_buf.body)[i]); printf("\n"); }
+  if (getenv("C19_TRACE")) { printf("   message from client%d: type=%u len=%u", ACT, type, len); for (i = 0; i < 24; i++) printf(" %02x", ((uint8_t *) &a->msg_buf.body)[i]); printf("\n"); fflush(stdout); }
 #endif
   /* ---- proxyd.c:2413-2428 ---- */
   ok = vbi_proxyd_check_msg(&a->msg_buf, &a->endianSwap);
@@ -153,11 +156,23 @@ V_HARNESS(h_msg)
 #if MSGT == 5
     { /* CBMC checks an index into a MEMBER array only against the end of the enclosing object: services[strict+1] with strict < -1 lands in
          msg_buf, with strict > 2 in the members behind services[] (checked above).  Frame condition: the part of msg_buf behind the reply is untouched */
-      unsigned from = sizeof(VBIPROXY_MSG_HEADER) + (ntohl(a->msg_buf.head.type) == MSG_TYPE_SERVICE_CNF ? sizeof(VBIPROXY_SERVICE_CNF) : sizeof(VBIPROXY_SERVICE_REJ));
+      /* legitimately written: the reply (SERVICE_REJ: 128 bytes) or, for SERVICE_CNF, anything up to the end of connect_cnf.dec (the code
+         addresses the decoder through the connect_cnf layout); behind that nothing */
+      unsigned from = sizeof(VBIPROXY_MSG_HEADER) + (ntohl(a->msg_buf.head.type) == MSG_TYPE_SERVICE_CNF
+                        ? offsetof(VBIPROXY_CONNECT_CNF, dec) + sizeof(vbi_raw_decoder) : sizeof(VBIPROXY_SERVICE_REJ));
       const uint8_t *m = (const uint8_t *) &a->msg_buf; int same = 1;
       for (i = sizeof(VBIPROXY_MSG_HEADER) + sizeof(VBIPROXY_SERVICE_REJ); i + 8 <= sizeof(VBIPROXY_MSG); i += 8)      /* 107 words */
         if (i >= from) same &= (0 == memcmp(m + i, tail0 + i, 8));
       V_ASSERT(same, "service_msg_leaves_msg_buf_tail");
+      /* the confirm carries the device's decoder parameters, without the daemon's pattern pointer; -1 line numbers when not capturing */
+      if (ntohl(a->msg_buf.head.type) == MSG_TYPE_SERVICE_CNF) {
+        V_ASSERT(a->msg_buf.body.service_cnf.dec.pattern == NULL, "service_cnf_no_pointer_in_reply");
+        if (proxy.dev[0].p_decoder != NULL)
+          V_ASSERT(a->msg_buf.body.service_cnf.dec.count[0] == proxy.dev[0].p_decoder->count[0] && a->msg_buf.body.service_cnf.dec.start[0] == proxy.dev[0].p_decoder->start[0] &&
+                   a->msg_buf.body.service_cnf.dec.scanning == proxy.dev[0].p_decoder->scanning, "service_cnf_decoder_parameters");
+        else
+          V_ASSERT(a->msg_buf.body.service_cnf.dec.start[0] == -1 && a->msg_buf.body.service_cnf.dec.start[1] == -1 && a->msg_buf.body.service_cnf.dec.count[0] == 0, "service_cnf_not_capturing");
+      }
     }
 #endif
     if (type == MSG_TYPE_SERVICE_REQ)
